@@ -54,6 +54,19 @@ _LB_UNDECIDED = ("any", (
     ("truth", "P:logic_block_holder.loop_kill_paths[USub(1)]", "1"),
     ("truth", "P:logic_block_holder.will_merge", "0")), "1")
 
+_NEXTP = "P:logic_list[USub(1)].set_path_node()"
+_NONE_LEFT = ("cmp", _NEXTP, "Is", "None", "1")
+_SOME_LEFT = ("cmp", _NEXTP, "Is", "None", "0")
+_NEXT_IS_OP = ("cmp", f"{_NEXTP}.operator", "Is", "None", "0")
+_NEXT_IS_EV = ("cmp", f"{_NEXTP}.operator", "Is", "None", "1")
+_POPP = "P:logic_list[USub(1)].set_path_node(True)"
+_POP_NONE = ("cmp", _POPP, "Is", "None", "1")
+_POP_SOME = ("cmp", _POPP, "Is", "None", "0")
+_FRESH = ("cmp", "P:logic_list[USub(1)].current_path_puml_node", "Eq",
+          "P:logic_list[USub(1)].start_node", "1")
+_WALKED = ("cmp", "P:logic_list[USub(1)].current_path_puml_node", "Eq",
+           "P:logic_list[USub(1)].start_node", "0")
+_A3 = "P:puml_graph,P:logic_list,P:previous_node_class"
 TABLE: dict[str, list[tuple]] = {
     # ---- Event -> Node: identity, type, loop references, merge flag
     "create_node_from_event": [
@@ -199,6 +212,59 @@ TABLE: dict[str, list[tuple]] = {
         ("and the walk continues with the block's first path", "ret", "", "",
          ("handle_logic_list_next_path(P:puml_graph,P:logic_list,"
           "P:previous_node_class)",), [], [], ""),
+    ],
+    # ---- "next path of the open block" and "a path has reached the merge
+    # point": what the walk continues with (bind = which value the returned
+    # pair takes under which condition)
+    "handle_logic_list_next_path": [
+        ("the block is asked for its next path exactly once", "call",
+         "set_path_node", "P:logic_list[USub(1)]", (), [], [], ""),
+        ("no path left: the block is closed and the walk continues from its "
+         "END operator", "bind", "ret[0]", "",
+         ("P:logic_list.pop().end_node",), [_NONE_LEFT], [], ""),
+        ("the next path begins with an operator: the walk continues AT that "
+         "operator node, drawn from the block's start", "bind", "ret[0]", "",
+         ("P:logic_list[USub(1)].start_node",), [_SOME_LEFT, _NEXT_IS_OP],
+         [], ""),
+        ("... (model node)", "bind", "ret[1]", "", (_NEXTP,),
+         [_SOME_LEFT, _NEXT_IS_OP], [], ""),
+        ("the next path begins with an event: it is drawn behind the block's "
+         "START operator and the walk continues from it", "call",
+         "update_puml_graph_with_event_node", "",
+         ("P:puml_graph", _NEXTP, "P:logic_list[USub(1)].start_node"),
+         [_SOME_LEFT, _NEXT_IS_EV], [], ""),
+        ("... (diagram node)", "bind", "ret[0]", "",
+         (f"update_puml_graph_with_event_node(P:puml_graph,{_NEXTP},"
+          "P:logic_list[USub(1)].start_node)[0]",),
+         [_SOME_LEFT, _NEXT_IS_EV], [], ""),
+        ("... (model node of the event)", "bind", "ret[1]", "",
+         (f"update_puml_graph_with_event_node(P:puml_graph,{_NEXTP},"
+          "P:logic_list[USub(1)].start_node)[1]",),
+         [_SOME_LEFT, _NEXT_IS_EV], [], ""),
+    ],
+    "handle_reach_logic_merge_point": [
+        ("the finished path is joined to the block's END operator", "call",
+         "add_puml_edge", "P:puml_graph",
+         ("P:previous_puml_node", "P:logic_list[USub(1)].end_node"), [], [],
+         ""),
+        ("the finished path is popped", "call", "set_path_node",
+         "P:logic_list[USub(1)]", ("True",), [], [], ""),
+        ("no path left: the block is closed, the walk continues from its END "
+         "operator", "bind", "ret[0]", "", ("P:logic_list.pop().end_node",),
+         [_POP_NONE], [], ""),
+        ("the path that is current now has not been walked yet (it still "
+         "sits on the START operator): it is started", "bind", "ret[0]", "",
+         (f"handle_logic_list_next_path({_A3})[0]",), [_POP_SOME, _FRESH],
+         [], ""),
+        ("... (model node)", "bind", "ret[1]", "",
+         (f"handle_logic_list_next_path({_A3})[1]",), [_POP_SOME, _FRESH],
+         [], ""),
+        ("a path that was already walked is resumed where it stopped",
+         "bind", "ret[0]", "",
+         ("P:logic_list[USub(1)].current_path_puml_node",),
+         [_POP_SOME, _WALKED], [], ""),
+        ("... (its model node)", "bind", "ret[1]", "", (_POPP,),
+         [_POP_SOME, _WALKED], [], ""),
     ],
     "handle_rotate_path": [
         ("after a rotation a path is (re)started only when it has not been "
